@@ -197,6 +197,20 @@ CONTRACTS = {
                     sx=U("pix", "sigma ax1"), sy=U("pix", "sigma ax2"),
                     theta=ANG),
         ret=lambda a: TOP),
+    # the derivative routines take the pixel coordinates in the model's own
+    # (first axis, second axis) order
+    PKG + ".fitting.jacobian": dict(
+        params=dict(x=U(idx=Idx("row", None, None)),
+                    y=U(idx=Idx("col", None, None))),
+        ret=lambda a: TOP),
+    PKG + ".fitting.lmfit_jacobian": dict(
+        params=dict(x=U(idx=Idx("row", None, None)),
+                    y=U(idx=Idx("col", None, None))),
+        ret=lambda a: TOP),
+    PKG + ".fitting.emp_jacobian": dict(
+        params=dict(x=U(idx=Idx("row", None, None)),
+                    y=U(idx=Idx("col", None, None))),
+        ret=lambda a: TOP),
     PKG + ".fitting.Cmatrix": dict(
         params=dict(x=U(idx=Idx("row", None, None)),
                     y=U(idx=Idx("col", None, None)),
@@ -994,7 +1008,7 @@ class UnitLib(Lib):
                 v = AV(num="int", exact=True, idx=Idx(ax, 0, ("rel", "?")))
                 return AV(num="obj", cls="indextuple", elts=(
                     container(v, cls="ndarray").with_(idx=v.idx),))
-            if dotted == "numpy.where" and len(args) == 1:
+            if dotted in ("numpy.where", "numpy.nonzero") and len(args) == 1:
                 a = args[0]
                 fr = a.idx if isinstance(a.idx, Cut) else None
                 r = AV(num="int", exact=True, idx=Idx(
@@ -1376,6 +1390,22 @@ class ContractObs(Observer):
                         self.add(it, node, "call",
                                  "argument '%s' of %s: %s" %
                                  (p, dotted[len(PKG) + 1:], m),
+                                 {"arg": bound[p].short(),
+                                  "contract": want.short()})
+                    # pure axis-role contracts (which axis a coordinate
+                    # array runs along, no origin): a crossed pair is
+                    # reported here, its result reaches no index sink
+                    if isinstance(want.idx, Idx) and want.idx.axis and \
+                            want.idx.origin is None and \
+                            isinstance(bound[p].idx, Idx) and \
+                            bound[p].idx.axis and \
+                            bound[p].idx.axis != want.idx.axis:
+                        self.add(it, node, "call",
+                                 "argument '%s' of %s runs along the %s axis "
+                                 "where the %s axis is required (the two "
+                                 "coordinate arrays are crossed)" %
+                                 (p, dotted[len(PKG) + 1:],
+                                  bound[p].idx.axis, want.idx.axis),
                                  {"arg": bound[p].short(),
                                   "contract": want.short()})
         if dotted == PKG + ".regions.Region.sky_within":
